@@ -109,11 +109,12 @@ def r07a(ctx):
                     copies[mc[0][2]] = mc[2][0]
             lblp = ', '.join(f'{show(a)}={v}' for a, v in p.assumptions if 'bias' in show(a)
                              or 'running' in show(a)) or 'always'
-            okw = copies.get('weight') == ('attr', src, 'weight')
-            ctx.ob('R07a', f'{ci.name}.__init__ copies weight [{lblp}]', okw,
-                   'self.weight.copy_(src.weight)' if okw else
-                   f'weight initialised from {short(copies.get("weight"), 60) if "weight" in copies else "nothing"}',
-                   where(init))
+            stores = {}
+            for e in p.events:
+                if e.kind == 'setattr' and e.data[0] == SELF:
+                    stores[e.data[1]] = e.data[2]
+            okw, whyw = tensor_init(copies, stores, 'weight', src)
+            ctx.ob('R07a', f'{ci.name}.__init__ copies weight [{lblp}]', okw, whyw, where(init))
             if tb.startswith('BatchNorm'):
                 for t in ('bias', 'running_mean', 'running_var'):
                     none_path = any(a == ('isnone', ('attr', src, t)) and v
@@ -128,10 +129,14 @@ def r07a(ctx):
             no_bias = any(a == ('isnone', ('attr', src, 'bias')) and v is True
                           for a, v in p.assumptions)
             if has_bias:
-                okb = copies.get('bias') == ('attr', src, 'bias')
-                ctx.ob('R07a', f'{ci.name}.__init__ copies bias [{lblp}]', okb,
-                       'self.bias.copy_(src.bias)' if okb else
-                       'the bias of the replaced layer is not copied', where(init))
+                okb, whyb = tensor_init(copies, stores, 'bias', src)
+                ctx.ob('R07a', f'{ci.name}.__init__ copies bias [{lblp}]', okb, whyb,
+                       where(init))
+            if not has_bias and not no_bias:
+                # no test of src.bias on this path: both cases must be handled by one store
+                okb, whyb = tensor_init(copies, stores, 'bias', src, maybe_none=True)
+                ctx.ob('R07a', f'{ci.name}.__init__ copies bias [{lblp}]', okb, whyb,
+                       where(init))
             if no_bias:
                 last = None
                 for e in p.events:
@@ -143,6 +148,32 @@ def r07a(ctx):
                        f'with a bias-free source the bias is {short(last) if last else "left as created"}',
                        where(init), nontrivial=False)
     ctx.floor('R07a', 'replacement classes', n, 15)
+
+
+def tensor_init(copies, stores, name: str, src: Term, maybe_none: bool = False):
+    """The replacement's tensor must hold the *values* of the replaced layer's tensor in
+    *its own storage*: ``self.t.copy_(src.t)`` or ``self.t = Parameter(<clone/deepcopy of
+    src.t>)``.  Re-using the object (``self.t = src.t``) or its storage (``Parameter(src.t)``,
+    ``.data``) makes later in-place edits (BatchNorm folding, weight compensation) write into
+    the caller's model."""
+    want = ('attr', src, name)
+    if copies.get(name) == want:
+        return True, f'self.{name}.copy_(src.{name})'
+    v = stores.get(name)
+    if v is not None and v != NONE:
+        if not mentions(v, lambda x: x == want):
+            return False, f'{name} is initialised from {short(v, 80)}, not from the replaced layer'
+        fresh = mentions(v, lambda x: (method_call(x) is not None and
+                                       method_call(x)[1] in ('clone',) and
+                                       mentions(method_call(x)[0], lambda y: y == want)) or
+                         (is_call(x, 'copy.deepcopy', 'torch.clone') and
+                          mentions(x[2], lambda y: y == want)))
+        if fresh:
+            return True, f'{name} re-created from a clone of src.{name}'
+        return False, (f'self.{name} = {short(v, 80)} shares the Parameter (or its storage) with '
+                       f'the replaced layer: in-place edits made later by the conversion '
+                       f'(BatchNorm folding, weight compensation) write into the caller\'s model')
+    return False, f'{name} of the replaced layer is not copied into the replacement'
 
 
 def r07b(ctx):
@@ -302,10 +333,13 @@ def recomputed_before_read(ctx, E: Effects, attr: str, fam) -> bool:
                         first_write = i
                     if e.kind == 'call' and method_call(e.data[0]) and \
                             method_call(e.data[0])[0] == SELF:
-                        for cf, _ in E.resolve(e.data[0], p, f, e):
-                            if any(x.kind == 'setattr' and x.name == attr and 'self' in x.owners
-                                   for x in E.closure(cf)):
-                                first_write = i
+                        cands = E.resolve(e.data[0], p, f, e)
+                        # through a may-alias set (function-valued attribute) the write must
+                        # happen whichever alias is installed
+                        if cands and all(any(x.kind == 'setattr' and x.name == attr and
+                                             'self' in x.owners for x in E.closure(cf))
+                                         for cf, _ in cands):
+                            first_write = i
             if first_read is None and p.retval is not None and \
                     mentions(p.retval, lambda x: x == at):
                 first_read = len(p.events)
